@@ -111,6 +111,8 @@ INCLUDES = [
     ("included file raises", "include('a.cond')\nrun_command(name='x', run='true')\n", {"a.cond": "raise ValueError('boom')\n"}, False),
     ("included file has a syntax error", "include('a.cond')\nrun_command(name='x', run='true')\n", {"a.cond": "def (:\n"}, False),
     ("include with a non-string", "include(3)\nrun_command(name='x', run='true')\n", {}, False),
+    ("sibling directory whose name extends the project directory's name", "include('../@PROJ-shared/x.cond')\nrun_command(name='x', run=CMD)\n",
+     {"../@PROJ-shared/x.cond": "CMD = 'true'\n"}, False),
     # the same include string used by two COND files of one command: each resolves against its own directory
     ("same relative include in two packages, both exist",
      "include('common.cond')\nrun_command(name='x', run=CMD, deps=['//sub:y'])\n",
@@ -202,6 +204,8 @@ def make(two_deviations=False):
                 return {"nontrivial": bool(devs), "sample": {"case": D, "accepted": ok}}
             if family == 1:
                 label, text, files, ok = INCLUDES[g.choose("inc", len(INCLUDES))]
+                text = text.replace("@PROJ", proj.root.name)
+                files = {rel.replace("@PROJ", proj.root.name): c for rel, c in files.items()}
                 for rel, content in files.items():
                     path = proj.root / rel
                     path.parent.mkdir(parents=True, exist_ok=True)
@@ -218,6 +222,8 @@ def make(two_deviations=False):
                         if rel.startswith("../"):
                             try:
                                 os.unlink(str(proj.root / rel))
+                                if "-shared/" in rel:
+                                    os.rmdir(str((proj.root / rel).parent))
                             except OSError:
                                 pass
                 g.goal("include variant")
